@@ -188,6 +188,8 @@ def run(ctx):
                                   {"g": gp, "q": str(q)})
     from vlib import resulthistory
     resulthistory.replay(ctx, ["interp1d:cspline", "interp1d:linear", "squad:simpson", "squad:cspline"], "interp")
+    from vlib import layoutinv
+    layoutinv.replay(ctx, ["interp1d:cspline", "interp1d:linear"], "interp")
     # ---- batched sample positions (every row its own grid) and batched queries: row by row like the 1-D interpolant
     gb = torch.Generator().manual_seed(60 + ctx.seed)
     xsb = torch.sort(torch.rand(2, 6, generator=gb, dtype=DT), dim=-1)[0]
@@ -243,6 +245,9 @@ def run(ctx):
                             a = sp(xq)
                             if ref is not None and not np.allclose(a.numpy(), ref(xq.numpy()), atol=1e-9, rtol=1e-9):
                                 why = "differs from scipy CubicSpline(bc=%s) with %s queries than knots (max dev %.2e)" % (bc, nm, float(np.abs(a.numpy() - ref(xq.numpy())).max()))
+                            a0 = xitorch.interpolate.Interp1D(xt, yt, bc_type=bc)(xq)          # method left at its documented default
+                            if why is None and not torch.equal(a0, a):
+                                why = "method left at its default (cspline) with bc_type=%s differs from method='cspline' by %.2e" % (bc, float((a0 - a).abs().max()))
                             b = xitorch.interpolate.Interp1D(xt, method="cspline", bc_type=bc)(xq, yt)
                             if why is None and not torch.allclose(a, b, atol=1e-12):
                                 why = "y at construction and y at call time give different values"
